@@ -1541,7 +1541,7 @@ fn reset_equiv<const MODE: usize, const A: usize, const LC: u32, const LP: u32, 
     forget(d);
 }
 
-//@ harness props=C14,C01,C02 tier=quick unwind=1540 mem_gb=10 timeout=1500
+//@ harness props=C14,C01,C02,C08 tier=quick unwind=1540 mem_gb=10 timeout=1500
 //@ bound: DecoderState::new(p, size) for every p with lc+lp = 0 (any pb): every cell of every table inspected at a universally quantified index
 #[cfg_attr(kani, kani::proof)]
 #[cfg_attr(kani, kani::stub(std::fmt::format, crate::verif_common::stub_format))]
@@ -1596,13 +1596,26 @@ pub fn reset_state_fill_1_1() {
 /// index. The branch does not depend on the column count, so this decides "the kept table is
 /// refilled completely, whatever lc/lp split" without the 768-iteration loops.
 fn reset_fill_small<const OLD_LC: u32, const OLD_LP: u32, const LC: u32, const LP: u32, const CELLS: usize>() {
-    let mut t = Tape::<16>::new();
+    let mut t = Tape::<48>::new();
     let pb = (t.u8() as u32) % 5;
     let j = (t.u8() as usize) % CELLS;
     let old = LzmaProperties { lc: OLD_LC, lp: OLD_LP, pb: (t.u8() as u32) % 5 };
     let mut d = light_state::<0>(old, None);
     d.literal_probs = mk_vec2d(Box::new([0x0123u16; CELLS]) as Box<[u16]>, 3);
+    // one quantified cell of the other tables is dirty as well; loops a changed reset_state may
+    // contain are unwound far enough here (the full-table instances bound them at 8)
+    let table = 1 + t.u8() % 15;
+    let idx = t.usize();
+    let dirty = t.u16();
+    assume(table != T_LIT);
+    assume(idx < table_len(table, CELLS));
+    set_cell_value(&mut d, table, idx, dirty);
+    d.state = (t.u8() % 12) as usize;
+    d.rep = [t.u32() as usize, t.u32() as usize, t.u32() as usize, t.u32() as usize];
     d.reset_state(LzmaProperties { lc: LC, lp: LP, pb });
+    vassert!(any_cell_value(&d, table, idx) == 0x400, "reset/new: every probability cell is 0x400");
+    vassert!(d.state == 0, "reset/new: state 0");
+    vassert!(d.rep[0] == 0 && d.rep[1] == 0 && d.rep[2] == 0 && d.rep[3] == 0, "reset/new: reps 0");
     vassert!(vec2d_len(&d.literal_probs) == CELLS && vec2d_cols(&d.literal_probs) == 3, "reset(fill branch): the table is kept when lc+lp is unchanged");
     vassert!(vec2d_cell(&d.literal_probs, j) == 0x400, "reset(fill branch): every cell of the kept literal table is 0x400 again, whatever the lc/lp split");
     vassert!(d.lzma_props.lc == LC && d.lzma_props.lp == LP && d.lzma_props.pb == pb, "reset/new: properties installed");
@@ -1610,7 +1623,7 @@ fn reset_fill_small<const OLD_LC: u32, const OLD_LP: u32, const LC: u32, const L
     forget(d);
 }
 
-//@ harness props=C14,C02 tier=quick unwind=16 mem_gb=3 timeout=300
+//@ harness props=C14,C02 tier=quick unwind=32 mem_gb=4 timeout=600
 //@ bound: reset_state fill branch, old (lc=1, lp=0) -> new (lc=0, lp=1), stand-in table of 2 rows x 3 columns, real Vec2D::fill, any cell
 #[cfg_attr(kani, kani::proof)]
 #[cfg_attr(kani, kani::stub(std::fmt::format, crate::verif_common::stub_format))]
@@ -1618,7 +1631,7 @@ pub fn reset_state_fill_small_lc0_lp1() {
     reset_fill_small::<1, 0, 0, 1, 6>()
 }
 
-//@ harness props=C14,C02 tier=quick unwind=16 mem_gb=3 timeout=300
+//@ harness props=C14,C02 tier=quick unwind=32 mem_gb=4 timeout=600
 //@ bound: reset_state fill branch, old (lc=0, lp=2) -> new (lc=1, lp=1), stand-in table of 4 rows x 3 columns, real Vec2D::fill, any cell
 #[cfg_attr(kani, kani::proof)]
 #[cfg_attr(kani, kani::stub(std::fmt::format, crate::verif_common::stub_format))]
@@ -1626,7 +1639,7 @@ pub fn reset_state_fill_small_lc1_lp1() {
     reset_fill_small::<0, 2, 1, 1, 12>()
 }
 
-//@ harness props=C14,C02 tier=quick unwind=28 mem_gb=3 timeout=300
+//@ harness props=C14,C02 tier=quick unwind=32 mem_gb=4 timeout=600
 //@ bound: reset_state fill branch, old (lc=2, lp=1) -> new (lc=0, lp=3), stand-in table of 8 rows x 3 columns, real Vec2D::fill, any cell
 #[cfg_attr(kani, kani::proof)]
 #[cfg_attr(kani, kani::stub(std::fmt::format, crate::verif_common::stub_format))]
@@ -1831,7 +1844,7 @@ pub fn observing_reset_state_lzma(d: &mut DecoderState, new_props: LzmaPropertie
     note_reset(d);
 }
 
-//@ harness props=C14,C10,C07 tier=quick unwind=8 mem_gb=4 timeout=600 native=no
+//@ harness props=C14,C10,C07,C11 tier=quick unwind=8 mem_gb=4 timeout=600 native=no
 //@ bound: LzmaDecoder::new (any dict_size, memlimit, size) and LzmaDecoder::reset(None | Some(None) | Some(Some(n))) with reset_state observed
 #[cfg_attr(kani, kani::proof)]
 #[cfg_attr(kani, kani::stub(std::fmt::format, crate::verif_common::stub_format))]
@@ -3383,7 +3396,7 @@ pub fn partial_p19_r8_l19_2_20() {
 }
 
 
-//@ harness props=C01,C08,C09 tier=quick unwind=10 unwindset=RangeDecoder.*E3getB:28,decode_distance:28 mem_gb=10 timeout=1500 native=no opt_covers=dry_longest,literal_lc1_lp3,longest_match_pb4
+//@ harness props=C01,C08,C09,C17,C11 tier=quick unwind=10 unwindset=RangeDecoder.*E3getB:28,decode_distance:28 mem_gb=10 timeout=1500 native=no opt_covers=dry_longest,literal_lc1_lp3,longest_match_pb4
 //@ bound: ONE symbol of process_next_inner(update=true), concrete lc=0 lp=0 pb=0 (768 cells), every valid state, any decision bits, symbolic size in effect
 #[cfg_attr(kani, kani::proof)]
 #[cfg_attr(kani, kani::stub(std::fmt::format, crate::verif_common::stub_format))]
